@@ -322,7 +322,7 @@ class C13:
     assumptions = ['address layouts are produced by the perturbing allocator of harness/cpp/perturb.cpp; an order that '
                    'no seeded layout produces is not explored (the container inventory theorem is what covers all layouts)',
                    'process-to-process variation (ASLR) is covered by running the sharded driver processes']
-    ncases_quick, ncases_thorough = 300, 6000
+    ncases_quick, ncases_thorough = 300, 40000
     SEEDS = (0, 1, 2, 3, 7)
 
     @classmethod
@@ -409,7 +409,7 @@ class C19:
             'time attributes checked against the time reference; the same frame parsed with a header of the other time '
             'reference must be rejected, and accepted with permit_time_reference_mismatch')
     assumptions = C01.assumptions + ['the mismatch rule is exercised on frames that contain at least one timed block format']
-    ncases_quick, ncases_thorough = 400, 8000
+    ncases_quick, ncases_thorough = 400, 40000
 
     @classmethod
     def gen(cls, ctx):
